@@ -526,7 +526,11 @@ func runImport(r *common.Run, sk *sink, caseNo int, rng *rand.Rand, seed int64) 
 		}
 		if reached {
 			sk.Count(fmt.Sprintf("power_loss_during_import_site_%d", site), 1)
-			if err := h.CheckSnapshotDirsOf(shardID, id); err != nil {
+			ctx := ":power-loss-during-import-before-the-log-store-is-rewritten"
+			if site == cluster.ImportSiteAfterLogStore {
+				ctx = ":power-loss-during-import-after-the-log-store-was-rewritten"
+			}
+			if err := h.CheckSnapshotDirsOf(shardID, id, ctx); err != nil {
 				sk.Violation("C16", "host-does-not-open-after-power-loss-during-import", fmt.Sprintf("host %d: NewNodeHost failed after a power loss during ImportSnapshot: %v", h.Index, err), wit)
 				sk.Violation("C20", "host-does-not-open-after-power-loss-during-import", fmt.Sprintf("host %d: NewNodeHost failed after a power loss during ImportSnapshot: %v", h.Index, err), wit)
 				return
